@@ -2,10 +2,9 @@
 
 from threading import Lock
 import logging
-from concurrent.futures import Future
 
 from .base import chain_cancel, weak_callback
-from ..common import copy_future_exception, try_set_result
+from ..common import _OutputFuture, copy_future_exception, try_set_result
 from .check import ensure_futures
 from ..logwrap import LogWrapper
 from ..metrics import track_future
@@ -21,7 +20,7 @@ class BoolOperation(object):
 
         self.done = False
         self.lock = Lock()
-        self.out = Future()
+        self.out = _OutputFuture()
 
         for f in fs:
             chain_cancel(self.out, f)
